@@ -774,6 +774,84 @@ class DataStoreMachine(StoreMachine):
     def cfg_fp(self, cfg):
         return (cfg.get('mesh'), tuple(cfg.get('xp') or ()), cfg.get('echo_off'))
 
+    KEYWORDS = ('SIMUL', 'ROCKS', 'PARAM', 'MOMOP', 'START', 'NOVER', 'RPCAP', 'LINEQ', 'SOLVR',
+                'MULTI', 'TIMES', 'SELEC', 'DIFFU', 'ELEME', 'CONNE', 'MESHM', 'GENER', 'SHORT',
+                'FOFT', 'COFT', 'GOFT', 'INCON', 'INDOM', 'ENDCY', 'ENDFI')
+
+    @staticmethod
+    def expected_lines(want):
+        """Number of record lines each section must have in a file, from the TOUGH2 input format
+        (4 or 8 values per line, one blank line closing a list section) -- the harness's own
+        count, independent of the writer."""
+        def cdiv(a, b):
+            return -(-a // b)
+        e = {}
+        e['ROCKS'] = sum(1 + (1 if r['nad'] >= 1 else 0) + (2 if r['nad'] >= 2 else 0)
+                         for r in want['rocks']) + 1
+        p = want['param']
+        nts = -int(p['const_timestep']) if (p['const_timestep'] or 0.0) < 0 else 0
+        e['PARAM'] = 2 + nts + 1 + max(1, cdiv(len(p['default_incons']), 4))
+        e['MOMOP'], e['RPCAP'], e['LINEQ'], e['SOLVR'], e['MULTI'] = 1, 2, 1, 1, 1
+        e['START'], e['NOVER'] = 0, 0
+        if want['times']:
+            e['TIMES'] = 1 + cdiv(want['times']['num_times_specified'], 8)
+        if want['selection']:
+            e['SELEC'] = 1 + (want['selection'][0][0] or 0)
+        e['DIFFU'] = len(want['diffusion'])
+        e['ELEME'] = len(want['blocks']) + 1
+        e['CONNE'] = len(want['connections']) + 1
+        n = 0
+        for g in want['generators']:
+            nt = abs(g['ltab']) if (g['ltab'] and g['type'] != 'DELV') else 1
+            n += 1
+            if nt > 1:
+                n += cdiv(nt, 4) * (3 if g['enthalpy'] else 2)
+        e['GENER'] = n + 1
+        e['INCON'] = 2 * len(want['incon']) + 1
+        e['INDOM'] = 2 * len(want['indom']) + 1
+        e['FOFT'] = len(want['foft']) + 1
+        e['COFT'] = len(want['coft']) + 1
+        e['GOFT'] = len(want['goft']) + 1
+        return e
+
+    def after_write(self, name, cfg, want):
+        """O-lines: an independent scan of the written files: every section has the number of
+        record lines the format prescribes (a writer and a reader that agree with each other
+        on a different layout would pass the round trip but not this)."""
+        fs = self.ctx.fs
+        exp = self.expected_lines(want)
+        for fname in self.files_of(name, cfg):
+            if fname.endswith(('MESHA', 'MESHB')):
+                continue
+            data = fs.files.get(fname)
+            if data is None:
+                continue
+            lines = data.decode('utf-8', 'replace').split('\n')
+            if lines and lines[-1] == '':
+                lines.pop()
+            start = 0 if fname.endswith(('.pdat', '.MESH')) else 1       # title line
+            cur, count, found = None, 0, []
+            def close():
+                if cur is not None:
+                    found.append((cur, count))
+            for l in lines[start:]:
+                kw = l[0:5].strip()
+                is_kw = kw in self.KEYWORDS and (cur is None or l.strip() == kw or
+                                                 kw in ('SHORT', 'MESHM'))
+                if is_kw and not (cur in ('SHORT',) and kw in ('ELEME', 'CONNE', 'GENER')):
+                    close()
+                    cur, count = kw, 0
+                elif cur is not None:
+                    count += 1
+            close()
+            for kw, cnt in found:
+                if kw in exp and kw not in ('SHORT', 'MESHM') and cnt != exp[kw]:
+                    # a pdat / MESH file ends without the ENDCY line: same counts apply
+                    raise Violation('O-lines', 'file %s: section %s has %d record lines, the '
+                                    'format prescribes %d for this content' % (fname, kw, cnt,
+                                                                               exp[kw]))
+            self.ctx.probes['sections_line_counted'] += len(found)
+
     def o2_key(self, cfg):
         return '-'
 
